@@ -303,6 +303,7 @@ def main(argv):
         "distinct_outcomes": len(outcomes),
         "outcome_histogram": dict(sorted(outcomes.items(), key=lambda kv: -kv[1])[:25]),
         "worst_numerical_deviation": worst,
+        "worst_deviation_cases": [[r["id"], r.get("dev", 0.0)] for r in sorted(results.values(), key=lambda r: -(r.get("dev", 0.0) or 0.0))[:3]],
         "alphabets": desc.get("alphabets", {}),
         "bounds": desc.get("bounds", {}),
         "caps_hit": desc.get("caps_hit", []),
